@@ -81,6 +81,11 @@ def tu():
                 c, K, sig, K, d["id"], d["nout"], nx, tys, tys)
             t += 'extern "C" void d08_%s_def%d%s{ vd::Run<%d, diff::Type::Default, false, vd::UF<%d, %d>, %s>::go(x,f,J,H,after); }\n' % (
                 c, K, sig, K, d["id"], d["nout"], tys)
+            # the overloads without a method argument
+            t += 'extern "C" void d08_%s_mdefa%d%s{ vd::RunNoMethod<%d, vd::UFA<%d, %d, %d, %s>, %s>::go(x,f,J,H,after); }\n' % (
+                c, K, sig, K, d["id"], d["nout"], nx, tys, tys)
+            t += 'extern "C" void d08_%s_mdef%d%s{ vd::RunNoMethod<%d, vd::UF<%d, %d>, %s>::go(x,f,J,H,after); }\n' % (
+                c, K, sig, K, d["id"], d["nout"], tys)
         for idx in SUBSETS.get(c, []):
             for K in (1, 2):
                 t += 'extern "C" void d08_%s_sub%d_%s%s{ vd::RunSub<%d, diff::Type::Numerical, vd::UF<%d, %d>, std::index_sequence<%s>, %s>::go(x,f,J,H,after); }\n' % (
@@ -491,8 +496,9 @@ def run_analytic(cfg, tier="quick", seed=0):
     X = vars_("x", nr)
     rng = random.Random(seed + 3)
     for K in (1, 2):
-        for mode in ("ana", "defa"):
-            tag = "%s/dr<%d,%s>/%s" % (PROP, K, "Analytic" if mode == "ana" else "Default(callable provides derivatives)", cfg)
+        for mode in ("ana", "defa", "mdefa"):
+            tag = "%s/dr<%d,%s>/%s" % (PROP, K, {"ana": "Analytic", "defa": "Default(callable provides derivatives)",
+                                                  "mdefa": "no-method-overload(callable provides derivatives)"}[mode], cfg)
 
             def go(K=K, mode=mode, tag=tag):
                 fn = "d08_%s_%s%d" % (cfg, mode, K)
@@ -528,14 +534,15 @@ def run_analytic(cfg, tier="quick", seed=0):
         def go2(K=K, tag=tag):
             bufs = bufs_for(cfg, K)
             envs = [sample_x(cfg, rng) for _ in range(3)]
-            a_ = xt.run_concolic("d08_%s_def%d" % (cfg, K), bufs, envs)
             b_ = xt.run_concolic("d08_%s_num%d_0" % (cfg, K), bufs, envs)
-            for k, (pa, pb) in enumerate(zip(a_, b_)):
-                res.paths += 1
-                names = ["f", "J"] + (["H"] if K == 2 else []) + ["after"]
-                same = pa.status == pb.status == "ok" and all(x is y for nm in names for x, y in zip(pa.out(nm), pb.out(nm)))
-                res.add("%s/p%d/equals-Numerical" % (tag, k), "proved" if same else "refuted", "struct", 0.0, "identical operation DAGs" if same else "Default differs from Numerical",
-                        extra=None if same else dict(confirmed=False))
+            for md, lab in (("def", "Default"), ("mdef", "no-method-overload")):
+                a_ = xt.run_concolic("d08_%s_%s%d" % (cfg, md, K), bufs, envs)
+                for k, (pa, pb) in enumerate(zip(a_, b_)):
+                    res.paths += 1
+                    names = ["f", "J"] + (["H"] if K == 2 else []) + ["after"]
+                    same = pa.status == pb.status == "ok" and all(x is y for nm in names for x, y in zip(pa.out(nm), pb.out(nm)))
+                    res.add("%s/%s/p%d/equals-Numerical" % (tag, lab, k), "proved" if same else "refuted", "struct", 0.0,
+                            "identical operation DAGs" if same else "%s differs from Numerical" % lab, extra=None if same else dict(confirmed=False))
         guarded(res, tag, go2)
     return res
 
